@@ -644,3 +644,24 @@ Proof.
   split; [intros i rf H; inversion H; subst; exact (proj1 c05_nonvacuous_function)|].
   repeat split; vm_compute; reflexivity.
 Qed.
+
+(* 32-bit architectures: a stack memory that ends at 2^32 with a return address in its last word.  The caller's stack pointer
+   would be 2^32: `addr_ip.checked_add(POINTER_WIDTH)` fails, the scan gives up, no trap in either profile, context frame only *)
+Definition nv_top32_mem : memory := {| m_base := 4294967280; m_bytes := [0;0;0;0; 0;0;0;0; 0;0;0;0; 0;1;0;64] |}.
+Definition nv_top32_regs : regs := {| r_ip := 1073742000; r_sp := 4294967280; r_fp := 0; r_lr := 0; r_gp := [] |}.
+Example c05_nonvacuous_stack_at_top32 :
+  mem_wf nv_top32_mem /\ regs_wf x86 nv_top32_regs /\ regs_wf mips32 nv_top32_regs /\
+  m_base nv_top32_mem + Z.of_nat (length (m_bytes nv_top32_mem)) = 2 ^ 32 /\
+  read nv_top32_mem 4 (2 ^ 32 - 4) = Some 1073742080 /\
+  forall p,
+    walk_stack current_code p x86 OS_OTHER nv_top32_mem (fun _ => None) 0 (fun _ _ _ => None) (fun _ => true) (fuel_for nv_top32_mem)
+               nv_top32_regs (VSome [x86_ip_name; x86_sp_name]) = Ret [from_context nv_top32_regs (VSome [x86_ip_name; x86_sp_name]) TContext] /\
+    walk_stack current_code p mips32 OS_OTHER nv_top32_mem (fun _ => None) 0 (fun _ _ _ => None) (fun _ => true) (fuel_for nv_top32_mem)
+               nv_top32_regs (VSome [mips_ip_name; mips_sp_name]) = Ret [from_context nv_top32_regs (VSome [mips_ip_name; mips_sp_name]) TContext].
+Proof.
+  split; [split; [cbn; lia | repeat constructor; lia]|].
+  split; [unfold regs_wf, in_slot; cbn; lia|].
+  split; [unfold regs_wf, in_slot; cbn; lia|].
+  split; [reflexivity|]. split; [vm_compute; reflexivity|].
+  intros p; destruct p; split; vm_compute; reflexivity.
+Qed.
